@@ -20,6 +20,8 @@ static int emit_code(int fam, int seqi, int n, int idx) { return EMIT_BASE + (((
 static void emit_decode(int code, int *fam, int *seqi, int *n, int *idx) {
     int c = code - EMIT_BASE; *idx = c % 8192; c /= 8192; *n = c % 1024; c /= 1024; *seqi = c % 4; *fam = c / 4;
 }
+/* family 6: one Probe descriptor, the sequence number is n * 8192 + idx (every 16-bit value) */
+static uint16_t seq_of(int code) { int fam, seqi, n, idx; emit_decode(code, &fam, &seqi, &n, &idx); return fam == 6 ? (uint16_t)(n * 8192 + idx) : SEQS[seqi]; }
 static const uint16_t OVER[5] = {0 /* fit+1 */, 1 /* 2*fit */, 0x7FFF, 0x8000, 0xFFFF};
 
 static fb_desc DL[1024]; static int DLn; static unsigned declared;
@@ -28,6 +30,7 @@ static void desc_set(fb_desc *d, int kind, int pause, int pair) {
     memcpy(d->src, pev_addr(PAIRS[pair][0], 0), 6); memcpy(d->dst, pev_addr(PAIRS[pair][1], 0), 6);
 }
 static void build_list(int fam, int n, int idx) {
+    if (fam == 6) { n = 1; idx = 0; fam = 0; }
     DLn = n; declared = (unsigned)n;
     for (int i = 0; i < n; i++) {
         switch (fam) {
@@ -44,7 +47,8 @@ static void build_list(int fam, int n, int idx) {
 static void s_name(int ev, char *buf, size_t cap) {
     if (ev < EMIT_BASE) { pev_name(&SV[ev], buf, cap); return; }
     int fam, seqi, n, idx; emit_decode(ev, &fam, &seqi, &n, &idx);
-    static const char *fn[] = {"tuple", "all-Probe", "all-Train", "alternating", "position-sweep", "over-declared"};
+    static const char *fn[] = {"tuple", "all-Probe", "all-Train", "alternating", "position-sweep", "over-declared", "sequence-number-sweep"};
+    if (fam == 6) { snprintf(buf, cap, "Emit(from active mapper,seq=0x%04x,family=%s,n=1)", seq_of(ev), fn[fam]); return; }
     snprintf(buf, cap, "Emit(from active mapper,seq=0x%04x,family=%s,n=%d,idx=%d)", SEQS[seqi], fn[fam], n, idx);
 }
 
@@ -90,12 +94,12 @@ static void do_emit(int code) {
     int fam, seqi, n, idx; emit_decode(code, &fam, &seqi, &n, &idx);
     build_list(fam, n, idx);
     static uint8_t buf[VF_MAXMTU + 64];
-    size_t len = fb_emit(buf, W.iface[0].mac, pev_addr(M6.apparent, 0), W.iface[0].mac, pev_addr(M6.arb.v, 0), 0, SEQS[seqi], (uint16_t)declared, DL, DLn);
+    size_t len = fb_emit(buf, W.iface[0].mac, pev_addr(M6.apparent, 0), W.iface[0].mac, pev_addr(M6.arb.v, 0), 0, seq_of(code), (uint16_t)declared, DL, DLn);
     vf_iface *fi = &W.iface[0]; memset(fi->recv, 0, fi->recv_prev_len > len ? fi->recv_prev_len : len);
     vf_trace_clear();
     drv_linux_deliver(0, buf, len);
-    oracle_emit(code, SEQS[seqi]);
-    vf_outcome(vf_trace_hash());
+    oracle_emit(code, seq_of(code));
+    if (fam != 6 || (idx & 0x3FF) == 0) vf_outcome(vf_trace_hash());
 }
 
 static void s_apply(int ev) {
@@ -130,6 +134,7 @@ static void run_family_here(void) {
         for (int k = 0; k < 3; k++) { if (ns[k] > 200 && !vf_thorough() && k == 0) continue; for (int i = 0; i < ns[k]; i++) RUN(emit_code(4, seqi, ns[k], i)); }
         for (int o = 0; o < 5; o++) RUN(emit_code(5, seqi, F, o));
     }
+    if (heavy) for (int v = 1; v < 65536; v++) RUN(emit_code(6, 0, v / 8192, v % 8192));      /* every non-zero sequence number, once per (mapper, apparent address) class */
 #undef RUN
     free(s);
     e1_manual_path(&cfg6, NULL, 0);
@@ -156,14 +161,14 @@ static void build_state_alphabet(void) {
 static struct m10 { uint8_t qn; uint8_t q[3][32]; uint8_t delivered; } M10;   /* delivered: bit (srcidx*2+kind) */
 enum { X_DISC_A, X_DISC_A_BR, X_DISC_B, X_DELIVER, X_HELLO_B, X_PROBE_PEER_B, X_QUERY_B, X_QUERY_B_BR, X_RESET_B, X_OTHER_EMITTER_B, X_QRESET_B, X_EMIT0 };
 static int QCAP = 3;                    /* bound on the in-flight queue (quick tier: 2) */
-static int NEMIT; static struct { uint8_t n; uint8_t d[2]; } EM[512];     /* descriptor code: kind | pause<<1 | dstB<<2 | srcA<<3 */
+static int NEMIT; static struct { uint8_t n; uint8_t d[2]; } EM[512];     /* descriptor code: kind | pause<<1 | dstB<<2 | srcA<<3 | srcB<<4 (the mapper may choose ANY Ethernet source, also the observer's own address) */
 static const uint8_t *addrA(void) { return W.iface[0].mac; }
 static const uint8_t *addrB(void) { return W.iface[1].mac; }
 
 static void dcode(int c, fb_desc *d) {
     d->type = (uint8_t)(c & 1); d->pause = (c & 2) ? 7 : 0;
     memcpy(d->dst, (c & 4) ? addrB() : vf_station[ST_PEER], 6);
-    memcpy(d->src, (c & 8) ? addrA() : vf_station[ST_S0], 6);
+    memcpy(d->src, (c & 16) ? addrB() : (c & 8) ? addrA() : vf_station[ST_S0], 6);
 }
 static int towardsB(int ev) { int n = 0; for (int i = 0; i < EM[ev - X_EMIT0].n; i++) if (EM[ev - X_EMIT0].d[i] & 4) n++; return n; }
 
@@ -174,11 +179,12 @@ static void x_name(int ev, char *buf, size_t cap) {
     size_t o = (size_t)snprintf(buf, cap, "Emit(M1)->A[");
     for (int i = 0; i < EM[ev - X_EMIT0].n; i++) {
         int c = EM[ev - X_EMIT0].d[i];
-        o += (size_t)snprintf(buf + o, cap - o, "%s%s p%d %s>%s", i ? "; " : "", (c & 1) ? "Probe" : "Train", (c & 2) ? 7 : 0, (c & 8) ? "A" : "S0", (c & 4) ? "B" : "PEER");
+        o += (size_t)snprintf(buf + o, cap - o, "%s%s p%d %s>%s", i ? "; " : "", (c & 1) ? "Probe" : "Train", (c & 2) ? 7 : 0, (c & 16) ? "B" : (c & 8) ? "A" : "S0", (c & 4) ? "B" : "PEER");
     }
     snprintf(buf + o, cap - o, "]");
 }
 static int x_enabled(int ev) {
+    if (A.a == 3 && (ev == X_DISC_A_BR || ev == X_QUERY_B_BR || ev == X_HELLO_B || ev == X_PROBE_PEER_B || ev == X_OTHER_EMITTER_B)) return 0;
     if (ev == X_DELIVER) return M10.qn > 0;
     if (ev >= X_EMIT0) return M10.qn + towardsB(ev) <= QCAP;
     return 1;
@@ -195,7 +201,7 @@ static void x_apply(int ev) {
             uint8_t fr[32]; memcpy(fr, M10.q[0], 32);
             memmove(M10.q[0], M10.q[1], 64); M10.qn--; memset(M10.q[M10.qn], 0, 32);
             deliver_to(1, fr, 32);
-            int srcidx = memcmp(fr + 6, addrA(), 6) == 0 ? 1 : 0; int kind = fr[17] == 0x04 ? 1 : 0;
+            int srcidx = memcmp(fr + 6, addrA(), 6) == 0 ? 1 : memcmp(fr + 6, addrB(), 6) == 0 ? 2 : 0; int kind = fr[17] == 0x04 ? 1 : 0;
             M10.delivered |= (uint8_t)(1u << (srcidx * 2 + kind));
             break; }
         case X_HELLO_B: len = fb_hello(f, vf_station[ST_PEER], 0, 0x3412, vf_station[ST_M1], vf_station[ST_M1]); deliver_to(1, f, len); break;
@@ -207,15 +213,15 @@ static void x_apply(int ev) {
             const vf_trec *t = tr_send(0);
             if (tr_sends() != 1 || t->len < 34 || tr_bytes(t)[17] != 0x07) { vf_violation("peer:query-not-answered", "B did not answer the Query with one QueryResp"); M10.delivered = 0; break; }
             unsigned cnt = (unsigned)(((tr_bytes(t)[32] << 8) | tr_bytes(t)[33]) & 0x3FFF);
-            for (int srcidx = 0; srcidx < 2; srcidx++) {
+            for (int srcidx = 0; srcidx < 3; srcidx++) {
                 if (!(M10.delivered & (3u << (srcidx * 2)))) continue;
-                const uint8_t *src = srcidx ? addrA() : vf_station[ST_S0];
+                const uint8_t *src = srcidx == 2 ? addrB() : srcidx ? addrA() : vf_station[ST_S0];
                 int found = 0;
                 for (unsigned i = 0; i < cnt && 34 + 20 * (i + 1) <= t->len; i++) {
                     const uint8_t *d = tr_bytes(t) + 34 + 20 * i;
                     if (!memcmp(d + 2, addrA(), 6) && !memcmp(d + 8, src, 6) && !memcmp(d + 14, addrB(), 6)) found = 1;
                 }
-                if (!found) vf_violation("peer-does-not-report-emitted-probe", "responder A emitted a %s towards B (Ethernet source %s), it was delivered unmodified to B, but B's QueryResp (%u descriptors) has no entry with A as real source for it", (M10.delivered & (2u << (srcidx * 2))) ? "Probe" : "Train", srcidx ? "A" : "S0", cnt);
+                if (!found) vf_violation("peer-does-not-report-emitted-probe", "responder A emitted a %s towards B (Ethernet source %s), it was delivered unmodified to B, but B's QueryResp (%u descriptors) has no entry with A as real source for it", (M10.delivered & (2u << (srcidx * 2))) ? "Probe" : "Train", srcidx == 2 ? "B's own address" : srcidx ? "A" : "S0", cnt);
             }
             M10.delivered = 0; break; }
         case X_OTHER_EMITTER_B:     /* unrelated traffic: a third responder emits towards B with the same spoofed Ethernet source */
@@ -327,6 +333,13 @@ int main(int argc, char **argv) {
         for (int a = 0; a < 16; a++) { EM[NEMIT].n = 1; EM[NEMIT].d[0] = (uint8_t)a; NEMIT++; }
         /* two-descriptor lists: pauses do not influence what B records; only the first descriptor varies its pause */
         for (int a = 0; a < 16; a++) for (int b = 0; b < 16; b++) { if (b & 2) continue; EM[NEMIT].n = 2; EM[NEMIT].d[0] = (uint8_t)a; EM[NEMIT].d[1] = (uint8_t)b; NEMIT++; }
+        if (A.a == 3) {      /* the mapper-chosen Ethernet source is the observer's own address (singles, and as the first of a pair); reduced list of the other descriptors and events */
+            static const uint8_t others[6] = {4, 5, 12, 13, 20, 21};
+            NEMIT = 0;
+            for (int a = 0; a < 4; a++) { EM[NEMIT].n = 1; EM[NEMIT].d[0] = (uint8_t)(16 | 4 | a); NEMIT++; }
+            for (int b = 0; b < 4; b++) { EM[NEMIT].n = 1; EM[NEMIT].d[0] = others[b]; NEMIT++; }
+            for (int a = 0; a < 2; a++) for (int b = 0; b < 6; b++) { EM[NEMIT].n = 2; EM[NEMIT].d[0] = (uint8_t)(16 | 4 | a); EM[NEMIT].d[1] = others[b]; NEMIT++; }
+        }
         QCAP = vf_thorough() ? 3 : 2;
         e1_cfg cfg = { .nev = X_EMIT0 + NEMIT, .ev_name = x_name, .apply = x_apply, .enabled = x_enabled, .root_setup = x_root, .model = &M10, .model_size = sizeof M10,
                        .deadline_s = A.deadline, .prune_on_violation = 1 };
